@@ -750,12 +750,19 @@ func c13SetLit(t *rapid.T, c *C13Chain) {
 			c13SetLit(t, c.Operands[i].Sub)
 		} else if rapid.IntRange(0, 2).Draw(t, "literal-operand") == 0 {
 			c.Operands[i].Lit = true
+			// a signed literal is one operand: its sign belongs to it, whatever follows
+			if c.Operands[i].V != 0 && !strings.HasPrefix(c.Operands[i].Text, "-") && rapid.IntRange(0, 2).Draw(t, "negative-literal") == 0 {
+				c.Operands[i].Text, c.Operands[i].V = "-"+c.Operands[i].Text, -c.Operands[i].V
+			}
 		}
 	}
 }
 
 func c13ClearLit(c *C13Chain) {
 	for i := range c.Operands {
+		if c.Operands[i].Lit && strings.HasPrefix(c.Operands[i].Text, "-") {
+			c.Operands[i].Text, c.Operands[i].V = c.Operands[i].Text[1:], -c.Operands[i].V
+		}
 		c.Operands[i].Lit = false
 		if c.Operands[i].Sub != nil {
 			c13ClearLit(c.Operands[i].Sub)
